@@ -172,6 +172,20 @@ end
 /-- Executable checker for `LiveConsistent` (run by the harness on the REAL `LIVE_VARS_IN/OUT`). -/
 def liveConsistent (p : ABlock) (O : List Name) : Bool := liveB p O
 
+/-! ### Finding class `for_target_live_across_zero_trip`
+The one inclusion of `LiveConsistent` that the pinned `liveness.py` violates: the loop header kills the `for`
+target also on the exit edge, so a target that is live after the loop is not live into it. -/
+mutual
+def forTargetZeroTripS : AStmt → Bool
+  | .forS i x _ _ b => (i.liveOut.contains x && !i.liveIn.contains x) || forTargetZeroTripB b
+  | .ifS _ _ t e => forTargetZeroTripB t || forTargetZeroTripB e
+  | .whileS _ _ b => forTargetZeroTripB b
+  | _ => false
+def forTargetZeroTripB : List AStmt → Bool
+  | [] => false
+  | s :: r => forTargetZeroTripS s || forTargetZeroTripB r
+end
+
 /-! ### What the real pass guarantees about `declared` / `undefined` (`_get_block_vars`)
 
 `DeclS`: for every compound statement, with `modified` = the names its bodies may assign,
